@@ -25,21 +25,16 @@ import common
 import faults
 import gen_check
 
-EXTRA = ["wf_dec", "g_operands", "g_access", "g_literal", "has_recursion", "sh_parloop_call",
-         "has_bad_limit", "sh_bad_literal", "sh_bad_guard", "sh_string_eq", "sh_lenvar", "c11_guard"]
+EXTRA = ["wf_dec", "from_grammar", "sh_bad_guard", "sh_string_eq", "sh_array_element", "c11_guard"]
 HEADER = check_core.HEADER + "From PFDL.Check Require Import Typing Guards.\n"
 
-# finding id -> (shape name among EXTRA, value of the predicate that means "shape present")
-CRASH_SHAPES = [("D11a-expression-operand-raises", "g_operands", False),
-                ("D11c-attribute-access-raises", "g_access", False),
-                ("D11d-nested-literal-key-raises", "g_literal", False)]
-ACCEPT_SHAPES = [("D8-recursion-accepted", "has_recursion", True),
-                 ("D9-parallel-loop-call-unchecked", "sh_parloop_call", True),
-                 ("D10-loop-limit-unchecked", "has_bad_limit", True),
-                 ("D12a-literal-rules-missing", "sh_bad_literal", True),
-                 ("D12b-guard-type-unchecked", "sh_bad_guard", True)]
-REJECT_SHAPES = [("D20-string-equality-rejected", "sh_string_eq", True)]
-LINE_SHAPES = [("D21-array-length-error-without-line", "sh_lenvar", True)]
+# finding id -> (shape name among EXTRA, value of the predicate that means "shape present").
+# After the repairs D8-D12a, D21-D23 in /repo no shape excuses an exception any more.
+CRASH_SHAPES = []
+ACCEPT_SHAPES = [("D12b-guard-type-unchecked", "sh_bad_guard", True)]
+REJECT_SHAPES = [("D24-string-equality-rejected", "sh_string_eq", True),
+                 ("D25-array-element-rejected", "sh_array_element", True)]
+LINE_SHAPES = []
 
 
 def shapes_of(m):
@@ -214,7 +209,7 @@ def wf_outside_guard(seed_str):
     rng = random.Random(seed_str)
     prog = faults.with_support(gen_check.WGen(rng).gen_program())
     which = rng.choice(["string_eq", "array_elem_expr", "prim_array_elem_param", "array_elem_whole_cond",
-                        "paren_string_operand"])
+                        "paren_string_operand", "array_elem_limit"])
     q = ("service", "Sq", [], [("q", faults.FQ)])
     P = faults.P
     if which == "string_eq":
@@ -224,6 +219,8 @@ def wf_outside_guard(seed_str):
     elif which == "paren_string_operand":
         s = ("cond", ("bin", rng.choice(["<", ">="]), ("paren", P("q", "label")), ("str", "a")),
              [("service", "Sp", [], [])], [])
+    elif which == "array_elem_limit":
+        s = ("count", False, "kk", ("path", "q", [("f", "items"), ("il", 1), ("f", "n")]), [("service", "Sp", [], [])])
     elif which == "array_elem_whole_cond":
         s = ("cond", P("q", "items", 1, "ok"), [("service", "Sp", [], [])], [])
     else:
@@ -654,9 +651,11 @@ def slice_C16(pid, cfg, tier, seed, workdir, rep, stats, findings):
         why = mon_C16(c)
         # the model's prediction of the exception is part of the correspondence; the guard
         # crash_free must hold whenever the implementation does not raise ... and fail when it does
-        cf = c["shapes"]["g_operands"] and c["shapes"]["g_access"] and c["shapes"]["g_literal"]
-        if cf and c["impl"]["exc"] is not None:
-            rep.violation(payload(pid, c, "guard", "crash_free holds but the implementation raised"))
+        if not c["shapes"]["from_grammar"]:
+            # theorem C16_always_a_verdict assumes the grammar's AST shape; the generators only
+            # produce such ASTs
+            rep.violation(payload(pid, c, "machinery", "generated AST is not of the grammar's shape"),
+                          "no-failing-input-found")
             continue
         if why:
             fid = attribute(known, c["shapes"], CRASH_SHAPES)
@@ -696,17 +695,11 @@ def slice_C16(pid, cfg, tier, seed, workdir, rep, stats, findings):
         stats["fuzz_verdict:" + str(r["valid"])] += 1
         if r["why"]:
             fid = None
-            if r["why"].startswith("exception"):
-                if r.get("front_exc") in ("JSONDecodeError", "ValueError") and shape_json_string_not_loadable(text):
-                    fid = "D22-json-string-raises" if "D22-json-string-raises" in known else None
-                elif i in models:
-                    m = models[i]
-                    if m["status"] == "exn" and m["exn"] == r["exc"]:
-                        fid = attribute(known, shapes_of(m), CRASH_SHAPES)
-                        stats["fuzz_exception_predicted_by_model"] += 1
-            if (fid is None and "D23-program-text-is-a-path" in known and "from Scheduler/start/fire_event" in r["why"]
-                    and shape_text_is_a_path(text)):
-                fid = "D23-program-text-is-a-path"
+            if r["why"].startswith("exception") and i in models:
+                m = models[i]
+                if m["status"] == "exn" and m["exn"] == r["exc"]:
+                    fid = attribute(known, shapes_of(m), CRASH_SHAPES)
+                    stats["fuzz_exception_predicted_by_model"] += 1
             if fid:
                 stats["known:" + fid] += 1
             else:
@@ -836,10 +829,7 @@ def near_valid_case(seed_str):
     return c
 
 
-RUN_SHAPES = [("D8-recursion-accepted", "has_recursion", True),
-              ("D9-parallel-loop-call-unchecked", "sh_parloop_call", True),
-              ("D10-loop-limit-unchecked", "has_bad_limit", True),
-              ("D12b-guard-type-unchecked", "sh_bad_guard", True)]
+RUN_SHAPES = [("D12b-guard-type-unchecked", "sh_bad_guard", True)]
 
 
 def slice_C09(pid, cfg, tier, seed, workdir, rep, stats, findings):
